@@ -222,6 +222,43 @@ func init() {
 				}, Repr: func(i int64) string {
 					return fmt.Sprintf("%s function %s with argument list #%d", mgrName(i%2 == 1), c08Names[int(i/2%nf)], i/(2*nf))
 				}},
+				{Name: "functions-after-table-edits", N: nf * 3, Run: func(c *fw.Ctx, i int64) {
+					// evaluate every function after entries were removed from / added to the calculator's own table
+					name := c08Names[int(i%nf)]
+					calc := calculator.NewExpressionCalculator()
+					fw.Try(func() {
+						switch i / nf {
+						case 0:
+							calc.DefaultFunctions().RemoveByName("Now")
+						case 1:
+							calc.DefaultFunctions().Remove(0)
+							calc.DefaultFunctions().RemoveByName("Date")
+						case 2:
+							calc.DefaultFunctions().RemoveByName("Array")
+							calc.DefaultFunctions().RemoveByName("Ticks")
+						}
+					})
+					fn := name
+					if fn == "Null" {
+						fn = "\"Null\""
+					}
+					for _, text := range []string{fn + "()", fn + "(1)", fn + "(1,2)", fn + "(1,2,3)"} {
+						var r *variants.Variant
+						var err error
+						pv := fw.Try(func() {
+							if e := calc.SetExpression(text); e != nil {
+								err = e
+								return
+							}
+							r, err = calc.Evaluate()
+						})
+						c.Eval(1)
+						if pv != nil || (r == nil) == (err == nil) {
+							c.Violation("evaluation-panics-after-function-table-edit", "%q after removing entries from the calculator's function table: panic %v result=%v err=%v", text, pv, r != nil, err)
+						}
+					}
+					c.Nontrivial()
+				}, Repr: func(i int64) string { return fmt.Sprintf("function %s after function-table edit %d", c08Names[int(i%nf)], i/nf) }},
 				{Name: "template-lexemes", N: countStrings(len(c03TmplLexemes), lexLen), Run: func(c *fw.Ctx, i int64) {
 					c03Template(c, strings.Join(lexemesByIndex(c03TmplLexemes, i), ""))
 				}, Repr: func(i int64) string {
